@@ -510,6 +510,10 @@ func (c *c38) plan(v vcState) {
 	switch ph {
 	case minersc.Start:
 		c.policy = policies[c.r.Intn(len(policies))]
+		if c.p.EarlyExtras && c.r.Chance(0.3) {
+			// histories with enough newcomers try a key generation without the set in force more often
+			c.policy = []string{"only-new-miners-contribute", "only-new-miners-contribute", "only-new-sharders-keep"}[c.r.Intn(3)]
+		}
 		c.dkgs = map[string]*tbls.DKG{}
 		c.lastPub = map[string][]byte{}
 	case minersc.Contribute:
